@@ -389,6 +389,15 @@ pub enum Prov {
     GrowShrink,
     /// with_capacity(c) then extend
     Cap(u16),
+    /// zeros(n) -= c with c = 2^n - value: the value arrives through a borrow out of the top
+    SubWrap,
+    /// ones(n) += value + 1: the value arrives through a carry out of the top
+    AddWrap,
+    /// resize(up, One) then truncate back (fixed kinds too, within the capacity)
+    GrowOnes,
+    /// built longer with ones on top, truncated to one bit below the last word boundary, then the
+    /// remaining bits pushed one by one across that boundary
+    ShrinkPush,
 }
 
 pub const ALL_PROVS: &[Prov] = &[
@@ -402,6 +411,10 @@ pub const ALL_PROVS: &[Prov] = &[
     Prov::Conv,
     Prov::NotNot,
     Prov::GrowShrink,
+    Prov::SubWrap,
+    Prov::AddWrap,
+    Prov::GrowOnes,
+    Prov::ShrinkPush,
 ];
 
 impl Prov {
@@ -418,6 +431,10 @@ impl Prov {
             Prov::NotNot => "notnot".into(),
             Prov::GrowShrink => "growshrink".into(),
             Prov::Cap(c) => format!("cap:{}", c),
+            Prov::SubWrap => "subwrap".into(),
+            Prov::AddWrap => "addwrap".into(),
+            Prov::GrowOnes => "growones".into(),
+            Prov::ShrinkPush => "shrinkpush".into(),
         }
     }
     pub fn parse(s: &str) -> Option<Prov> {
@@ -432,6 +449,9 @@ impl Prov {
             Prov::Trunc => kind.cap().map_or(true, |c| len < c),
             Prov::Reserve1 | Prov::Reserve200 | Prov::WithCap | Prov::GrowShrink | Prov::Cap(_) => kind == K::D || kind == K::A,
             Prov::DynExact => kind == K::A,
+            Prov::SubWrap | Prov::AddWrap => len > 0,
+            Prov::GrowOnes => kind.cap().map_or(true, |c| len < c),
+            Prov::ShrinkPush => len >= 2 && (len - 1) / kind.word() >= 1,
         }
     }
     /// does this route leave spare capacity / non-default storage mode
